@@ -10,6 +10,7 @@ from ..model import AnchorError
 from ..flow import cannot_raise
 from ..mutate import B, M
 from .c03 import fetch_guard_rules
+from .c04 import param_lookup_rule
 
 PROP = 'C02'
 CF = 'cflib/crazyflie/__init__.py'
@@ -110,6 +111,7 @@ def check(ctx):
     ctx.inst('R2', pt, 'connected-after-param-toc', ok, 'connected is signalled when the parameter TOC is complete, then all parameter values are requested')
     reg = [c for c in walk_own(K.method('__init__').node) if method_call(c, 'add_callback') and norm(c.func.value) == 'self.param.all_updated' and [norm(a) for a in c.args] == ['self._all_parameters_updated']]
     ctx.inst('R2', K.method('__init__'), 'fully_connected-on-all-updated', len(reg) == 1, '_all_parameters_updated is registered on param.all_updated')
+    param_lookup_rule(ctx, 'R2')
     ic = K.method('_check_for_initial_packet_cb')
     body = [norm(s) for s in effective(ic.node.body)]
     ctx.inst('R2', ic, 'first-packet', body == ['self.state = State.CONNECTED', 'self.link_established.call(self.link_uri)', 'self.packet_received.remove_callback(self._check_for_initial_packet_cb)'],
